@@ -440,6 +440,34 @@ func c7Faults(thorough bool) []c7Fault {
 		add("hex:upper-case:"+f.name, func(rng *rand.Rand, s *world.Spec) { p := f.get(&s.Qe); *p = strings.ToUpper(*p) }) // same bytes: must not matter
 		add("hex:0x-prefix:"+f.name, func(rng *rand.Rand, s *world.Spec) { p := f.get(&s.Qe); *p = "0x" + *p })
 	}
+	// --- one half of ATTRIBUTES at a time: the identity's value is zero there, the mask selects every bit of it, the report has ONE
+	// bit set there (the other half agrees) — and the mirror image (identity has the bit, the report does not)
+	for _, half := range []string{"low", "high"} {
+		for _, dir := range []string{"report-has-bit", "identity-has-bit"} {
+			half, dir := half, dir
+			add("mask:all-ones:attr-"+half+"-half-zero/"+dir, func(rng *rand.Rand, s *world.Spec) {
+				s.Qe.AttributesMask = strings.Repeat("ff", 16)
+				a := s.Quote.QeReport.Attributes
+				lo := 0
+				if half == "high" {
+					lo = 8
+				}
+				for i := lo; i < lo+8; i++ {
+					a[i] = 0
+				}
+				id := append([]byte{}, a...)
+				bit, pos := byte(1)<<rng.IntN(8), lo+rng.IntN(8)
+				if dir == "report-has-bit" {
+					a[pos] = bit
+				} else {
+					id[pos] = bit
+				}
+				s.Qe.Attributes = hex.EncodeToString(id)
+				// a TCB Info that selects no SEAM attribute bit (mask and value zero): whatever the SEAM attributes are, they match
+				s.Tcb.Mask, s.Tcb.Attributes = strings.Repeat("00", 8), strings.Repeat("00", 8)
+			})
+		}
+	}
 	// --- unsigned content next to the signed identity: a look-alike member (the key in another spelling, or the very same key)
 	// before / after / between the signed member and the signature describes exactly this QE, while the SIGNED identity does
 	// not (another signer, another product, the selected level not UpToDate, every level above the report).  Only what Intel
